@@ -37,6 +37,9 @@ pub enum PEv {
     KillAfter(u32),
     /// (chaos scenarios) just wait
     Pause(u32),
+    /// (chaos scenarios) from now on the client's file lets ONE more write to the appointment tables through and refuses
+    /// the next, as if the process had been killed between two durable writes of one logical step; lifted by the next restart
+    KillAtSecondWrite,
 }
 
 fn add_tok(m: &AddMode) -> &'static str {
@@ -72,6 +75,8 @@ fn reg_tok(m: &RegMode) -> &'static str {
         RegMode::Same => "same",
         RegMode::SameExpiry => "sameexpiry",
         RegMode::BadSig => "badsig",
+        // (for the client a receipt for somebody else is a receipt that does not verify for it)
+        RegMode::OtherUser => "badsig",
         RegMode::NonJson => "nonjson",
         RegMode::ApiError => "apierror",
     }
@@ -95,6 +100,7 @@ impl PEv {
             PEv::AwaitStatus(t, st, s) => format!("pl awaitstatus {t} {st} {s}"),
             PEv::KillAfter(ms) => format!("pl killafter {ms}"),
             PEv::Pause(ms) => format!("pl pause {ms}"),
+            PEv::KillAtSecondWrite => "pl killatsecondwrite".into(),
         }
     }
 }
@@ -147,6 +153,8 @@ struct Ghost {
     due: BTreeSet<(u32, u32)>,
     /// towers flagged misbehaving, with the number of add_appointment requests they had received then
     flagged: BTreeMap<u32, usize>,
+    /// the registration receipts in the file after the previous event
+    regs: BTreeSet<(u32, u32, u32, u32, u32)>,
 }
 
 /// stable = nothing changes for a while; a tower that is "temporary unreachable" (or has a subscription
@@ -190,6 +198,17 @@ fn monitors(w: &mut PWorld, g: &mut Ghost, ev: &PEv, reply: &str, view: &View, t
         out.push(Rec::Fail("C14", "plugin_died".into(), format!("the plugin process is gone after `{}`", ev.line())));
         return;
     }
+    // ---- C14: a register reply that is not a receipt of the tower for this client records nothing
+    if let PEv::Register(t) = ev {
+        let (mode, down) = { let st = w.towers[*t as usize].st.lock().unwrap(); (st.reg.clone(), st.down) };
+        if !down && matches!(mode, RegMode::BadSig | RegMode::OtherUser | RegMode::NonJson | RegMode::ApiError) {
+            let new: Vec<_> = view.rows.regs.iter().filter(|r| r.0 == *t && !g.regs.contains(*r)).collect();
+            if reply == "ok" || !new.is_empty() {
+                out.push(Rec::Fail("C14", "bad_registration_recorded".into(), format!("tower {t} answered `register` with {mode:?} (not a receipt it signed for this client) but the command answered `{reply}` and the file gained {new:?}")));
+            }
+        }
+    }
+    g.regs = view.rows.regs.clone();
     // ---- C05: every due (tower, locator) is durably accepted, pending or invalid
     for (t, l) in g.due.iter() {
         let acc = view.rows.rcpts.contains_key(&(*t, *l));
@@ -272,7 +291,7 @@ fn monitors(w: &mut PWorld, g: &mut Ghost, ev: &PEv, reply: &str, view: &View, t
 pub fn run_scenario(sc: &Scenario, idx: usize) -> Vec<Rec> {
     let mut out = vec![];
     let mut w = PWorld::new(&format!("{}-{idx}", sc.name), sc.towers, 21000 + (idx as u16 % 400) * 40, sc.opts);
-    let mut g = Ghost { due: BTreeSet::new(), flagged: BTreeMap::new() };
+    let mut g = Ghost { due: BTreeSet::new(), flagged: BTreeMap::new(), regs: BTreeSet::new() };
     // scenarios with a short auto-retry delay never rest (idle retriers wake up by themselves): monitors only,
     // their lines are not compared with the stable-point model
     let timed = sc.opts.1 < 100;
@@ -416,6 +435,10 @@ pub fn run_scenario(sc: &Scenario, idx: usize) -> Vec<Rec> {
                 std::thread::sleep(Duration::from_millis(*ms as u64));
                 "ok".into()
             }
+            PEv::KillAtSecondWrite => {
+                w.arm_second_write_fault();
+                "ok".into()
+            }
             PEv::AwaitStatus(t, st, secs) => {
                 let t0 = Instant::now();
                 let mut ok = false;
@@ -515,6 +538,7 @@ pub fn run_chaos(sc: &Scenario, idx: usize) -> Vec<Rec> {
     let mut w = PWorld::new(&format!("{}-{idx}", sc.name), sc.towers, 21000 + (idx as u16 % 400) * 40, sc.opts);
     let mut due: BTreeSet<(u32, u32)> = BTreeSet::new();
     out.push(Rec::Line(format!("px new {} chaos", sc.towers), "-".into()));
+    let mut armed = false;
     for ev in sc.events.iter() {
         out.push(Rec::Count(format!("chaos-ev:{}", ev.line().split(' ').nth(1).unwrap_or(""))));
         out.push(Rec::Line(ev.line().replacen("pl ", "px ", 1), "-".into()));
@@ -552,9 +576,17 @@ pub fn run_chaos(sc: &Scenario, idx: usize) -> Vec<Rec> {
                 w.restart();
             }
             PEv::Pause(ms) => std::thread::sleep(Duration::from_millis(*ms as u64)),
+            PEv::KillAtSecondWrite => {
+                w.arm_second_write_fault();
+                armed = true;
+            }
             _ => {}
         }
-        if !w.plugin.alive() {
+        if matches!(ev, PEv::Restart | PEv::KillAfter(_)) {
+            armed = false;
+        }
+        // (with the write fault armed the client dies by design: that is the kill)
+        if !armed && !w.plugin.alive() {
             out.push(Rec::Fail("C14", "plugin_died".into(), format!("chaos: the plugin process is gone after `{}`", ev.line())));
             return out;
         }
@@ -571,8 +603,15 @@ pub fn run_chaos(sc: &Scenario, idx: usize) -> Vec<Rec> {
         }
     }
     // heal, restart, let everything be delivered
+    // (a tower that refused an appointment keeps refusing it in the kill-between-writes scenarios: a tower that changes
+    // its mind after the client died between recording the refusal and releasing the pending copy would leave the
+    // appointment both invalid and accepted — see DESIGN.md, corrections log)
+    let keeps_refusing = sc.name.contains("kill-between-writes-refused");
     for t in 0..sc.towers {
         w.set_down(t, false);
+        if keeps_refusing {
+            continue;
+        }
         w.set_add(t, AddMode::Accept);
         w.set_reg(t, RegMode::Accept);
         w.towers[t as usize].st.lock().unwrap().once.clear();
@@ -691,6 +730,8 @@ pub fn corpus() -> Vec<Scenario> {
         // that extends the subscription: it stays flagged and is sent nothing more
         sc("misbehaving-tower-registered-again", vec![Register(0), Register(1), Add(0, BadSig), Notify(0), Add(0, Accept), Register(0), Notify(1), Restart, Register(0), Notify(2)]),
         sc("kill-with-pending", vec![Register(0), Register(1), Down(0, true), Notify(0), Notify(1), Restart, Down(0, false), Restart, Notify(2)]),
+        // a receipt the tower signed for another user (its reply names that user): not a subscription of this client
+        sc("register-reply-for-another-user", vec![Register(0), Register(1), PEv::Reg(0, RegMode::OtherUser), Register(0), Notify(0), Add(0, SubErrUntilReg), Notify(1), Retry(0), Restart, PEv::Reg(0, RegMode::Accept), Register(0), Notify(2)]),
         sc("register-replies", vec![PEv::Reg(0, RegMode::BadSig), Register(0), PEv::Reg(0, RegMode::NonJson), Register(0), PEv::Reg(0, RegMode::ApiError), Register(0), PEv::Reg(0, RegMode::Accept), Register(0), PEv::Reg(0, RegMode::Same), Register(0), PEv::Reg(0, RegMode::SameExpiry), Register(0), Down(0, true), Register(0), Notify(0)]),
         Scenario { name: "auto-retry-delivers".into(), towers: 1, opts: (2, 3, 1), events: vec![Register(0), Down(0, true), Notify(0), Notify(1), Down(0, false), AwaitDelivered(0, 14)] },
         // a revocation that arrives while the retrier idles is only in the file: the automatic wake-up must pick it up
@@ -708,7 +749,7 @@ fn random_scenario(rng: &mut Rng, i: usize) -> Scenario {
     }
     let n = 5 + rng.below(6);
     let modes = [AddMode::Accept, AddMode::Accept, AddMode::SubErr, AddMode::SubErrUntilReg, AddMode::Reject, AddMode::ApiErr(32), AddMode::ApiErr(36), AddMode::ApiErr(65), AddMode::ApiErr(255), AddMode::ApiErr(1), AddMode::ApiErr(33), AddMode::NonJson, AddMode::WrongShape, AddMode::Empty, AddMode::BadSig, AddMode::MalformedSig];
-    let regs = [RegMode::Accept, RegMode::Accept, RegMode::Same, RegMode::SameExpiry, RegMode::BadSig, RegMode::NonJson, RegMode::ApiError];
+    let regs = [RegMode::Accept, RegMode::Accept, RegMode::Same, RegMode::SameExpiry, RegMode::BadSig, RegMode::OtherUser, RegMode::NonJson, RegMode::ApiError];
     for _ in 0..n {
         let t = rng.below(towers as u64) as u32;
         match rng.weighted(&[30, 12, 6, 8, 8, 10, 3, 5, 4]) {
@@ -745,6 +786,15 @@ pub fn run(seed: u64, thorough: bool, rep: &mut Report) {
     let n_random = if thorough { 120 } else { 16 };
     for i in 0..n_random {
         scenarios.push(random_scenario(&mut rng, i));
+    }
+    // the process dies between two durable writes of one logical step (emulated by the file refusing the second write):
+    // on the retry path when the tower accepts, on the retry path when it refuses, on the notification path
+    {
+        use PEv::*;
+        let f = |name: &str, towers: u32, events: Vec<PEv>| Scenario { name: format!("chaos-kill-between-writes-{name}"), towers, opts: (2, 1000, 1), events };
+        scenarios.push(f("accepted-on-retry", 1, vec![Register(0), Down(0, true), Notify(0), Pause(900), KillAtSecondWrite, Down(0, false), Retry(0), Pause(1800), Restart]));
+        scenarios.push(f("refused-on-retry", 1, vec![Register(0), Down(0, true), Notify(1), Pause(900), Add(0, AddMode::Reject), KillAtSecondWrite, Down(0, false), Retry(0), Pause(1800), Restart]));
+        scenarios.push(f("two-pending-accepted-on-retry", 2, vec![Register(0), Register(1), Down(0, true), Notify(0), Notify(1), Pause(900), KillAtSecondWrite, Down(0, false), Retry(0), Pause(1800), Restart]));
     }
     let n_chaos = if thorough { 60 } else { 10 };
     for i in 0..n_chaos {
